@@ -67,9 +67,20 @@ def gen(rng, tier, index):
             data = bytes(ln)
         else:
             data = bytes(rng.randrange(256) for _ in range(ln))
+        record_len = rng.choice([1, 7, 16, 32])
+        gap = None
+        n_rec = (ln + record_len - 1) // record_len
+        if n_rec >= 3 and rng.random() < 0.25:
+            # a sparse HEX file: some records in the middle are absent; the bytes of an address gap are
+            # erased flash (0xFF) - the image is made to hold 0xFF there, so file and image agree
+            first = rng.randrange(1, n_rec - 1)
+            last = rng.randrange(first + 1, n_rec)
+            gap = [first * record_len, last * record_len]
+            data = data[:gap[0]] + bytes([0xFF]) * (gap[1] - gap[0]) + data[gap[1]:]
         images.append({"type": rng.choice([0, 1, 255, 256, 65535, rng.randrange(65536)]), "ver": rng.choice([0, 1, 2, 65535, rng.randrange(65536)]),
-                       "data": data.hex(), "via": rng.choice(["bin", "bin", "hex"]), "record_len": rng.choice([1, 7, 16, 32]),
-                       "ela": rng.random() < 0.3, "corrupt": rng.random() < 0.08})
+                       "data": data.hex(), "via": rng.choice(["bin", "bin", "hex"]), "record_len": record_len,
+                       "ela": rng.random() < 0.3, "corrupt": rng.random() < 0.08, "gap": gap,
+                       "base": rng.choice([0, 0, 0, 0x100, 0x7000]) if ln <= 0x8000 else 0})
     nodes = rng.sample([1, 2, 3, 42, 200, 254], rng.randint(1, 3))
     sessions = []
     for nid in nodes:
@@ -288,7 +299,9 @@ def run(case):
                 targets = [s["node"] for s in case["ops"] if s["image"] == idx]
                 ok = True
                 if img["via"] == "hex":
-                    text = intel_hex(data, img["record_len"], 0, img["ela"])
+                    text = intel_hex(data, img["record_len"], img.get("base", 0), img["ela"], img.get("gap"))
+                    if img.get("gap"):
+                        probes["sparse_hex_files"] = probes.get("sparse_hex_files", 0) + 1
                     if img["corrupt"]:
                         lines = text.split("\n")
                         first = lines[1 if img["ela"] else 0]
